@@ -22,11 +22,11 @@ TAU = 1e-6   # "finite-difference grade" of the property statement
 
 
 def prebuild_targets(tier):
-    return HARNESS.targets(C.groups_for(tier))
+    return HARNESS.targets(C.groups_for(tier, bundles=False))
 
 
 def run(rep, tier, seed):
-    groups = C.groups_for(tier)
+    groups = C.groups_for(tier, bundles=False)
     errs = HARNESS.build(groups)
     rep.trust("REAL: machine arithmetic treated as mathematical",
               "A-TRIG: sin^2+cos^2=1, angle-multiple (Chebyshev) rewriting, sin'=cos, cos'=-sin",
@@ -35,6 +35,7 @@ def run(rep, tier, seed):
               "tracer vsym/sym.h; engine/alg.py (sympy rings/groebner); z3 for path feasibility")
     rep.assume("floating-point cancellation (e.g. 1.5e-7 < |theta| < 1e-2 in double) is NOT decided: proofs are over the reals",
                "singular set of each Jacobian (denominators that vanish, e.g. theta = pi for SO3::log) is excluded by the path's SAFE side conditions")
+    rep.assume("Bundles: every Bundle operation / Jacobian is the block-diagonal of its elements' (proved per layout under C11), so the element-group results proved here carry over")
     for g in groups:
         if g in errs:
             rep.fail("C05/%s/instantiates" % g, "BUILD", "g++", {"compiler_output": errs[g].output[-3000:]},
